@@ -4,6 +4,7 @@ import (
 	"fmt"
 	"go/token"
 	"go/types"
+	"sort"
 	"strings"
 
 	"golang.org/x/tools/go/ssa"
@@ -541,6 +542,26 @@ func (c *Ctx) RuleSiblingLocator() *Result {
 		}
 		return res
 	}
+	// each locator (and the helper it delegates the search to) fails when the search runs out of lines
+	for _, l := range locs {
+		res.Instances++
+		key := load.FnName(l.fn) + ":search that runs out of lines"
+		why := c.searchExhausted(l.fn)
+		if why == "" {
+			allInstrs(l.fn, func(in ssa.Instruction) {
+				if call, ok := in.(*ssa.Call); ok && why == "" {
+					if sf := staticFn(&call.Call); sf != nil && c.P.IsRepoFn(sf) && load.FnPkgPath(sf) == load.FnPkgPath(l.fn) {
+						why = c.searchExhausted(sf)
+					}
+				}
+			})
+		}
+		if why != "" {
+			res.bad(key, c.P.InstrPos(l.to), why)
+		} else {
+			res.ok(key, c.P.InstrPos(l.to), "from the exit of the line loop every path looks at the chain offset again, fails, or reports 'not found'")
+		}
+	}
 	ref := canonicalRegion(locs[0].fn, locs[0].from, locs[0].to)
 	for _, l := range locs[1:] {
 		res.Instances++
@@ -561,12 +582,231 @@ func (c *Ctx) RuleSiblingLocator() *Result {
 			}
 		}
 		if diff != "" {
+			// the two may be arranged differently (a helper extracted from one of them, conditions regrouped) and
+			// still locate the same line: compare what they are made of
+			a1, a2 := c.locatorAtoms(locs[0].fn), c.locatorAtoms(l.fn)
+			if d2 := atomDiff(a1, a2); d2 == "" {
+				res.ok(key, c.P.InstrPos(l.to), fmt.Sprintf("arranged differently, same ingredients: the same patterns are matched, the same offset comparisons and steps back are made (%d atoms)", len(a1)))
+				continue
+			} else {
+				diff = d2
+			}
+		}
+		if diff != "" {
 			res.bad(key, c.P.InstrPos(l.to), "the rule line is located differently when it is written and when it is read back: "+diff)
 		} else {
 			res.ok(key, c.P.InstrPos(l.to), fmt.Sprintf("alpha-normalised SSA of the locator (split ... rule-line match) is identical: %d steps", len(ref)))
 		}
 	}
 	return res
+}
+
+// locatorAtoms: what a locator is made of, independent of how it is arranged: which patterns are matched
+// against lines, which comparisons involve the chain offset, which steps back are taken. Helpers of the
+// same package are inlined (two levels).
+func (c *Ctx) locatorAtoms(fn *ssa.Function) []string {
+	var atoms []string
+	seen := map[*ssa.Function]bool{}
+	var patternAtom func(v ssa.Value, in *ssa.Function, d int) string
+	patternAtom = func(v ssa.Value, in *ssa.Function, d int) string {
+		if p, _ := c.Rx().Resolve(v); p != nil {
+			return p.Name
+		}
+		switch x := v.(type) {
+		case *ssa.Call:
+			if isFn(staticCallee(&x.Call), "regexp", "MustCompile") && len(x.Call.Args) == 1 {
+				for _, op := range stringOperands(x.Call.Args[0], 0) {
+					if sv, ok := constString(op); ok {
+						return "compiled(" + sv + ")"
+					}
+				}
+				return "compiled(?)"
+			}
+		case *ssa.Parameter:
+			if d < 2 {
+				pi := paramIndex(in, x)
+				for _, e := range c.Graph().In[in] {
+					cc := callCommon(e.Site)
+					if cc != nil && staticFn(cc) == in && pi >= 0 && pi < len(cc.Args) {
+						return patternAtom(cc.Args[pi], e.Caller, d+1)
+					}
+				}
+			}
+		}
+		return "?"
+	}
+	var walk func(f *ssa.Function, d int)
+	walk = func(f *ssa.Function, d int) {
+		if seen[f] || d > 2 {
+			return
+		}
+		seen[f] = true
+		allInstrs(f, func(in ssa.Instruction) {
+			if _, _, recv, _, ok := regexpCall(in); ok {
+				atoms = append(atoms, "match:"+patternAtom(recv, f, 0))
+				return
+			}
+			switch x := in.(type) {
+			case *ssa.BinOp:
+				is8 := func(v ssa.Value) bool {
+					b, ok := v.Type().Underlying().(*types.Basic)
+					return ok && b.Kind() == types.Uint8
+				}
+				switch x.Op {
+				case token.SUB:
+					if k, ok := constInt(x.Y); ok {
+						atoms = append(atoms, fmt.Sprintf("step-back:%d", k))
+					}
+				case token.EQL, token.NEQ:
+					if is8(x.X) || is8(x.Y) {
+						o := "var"
+						if k, ok := constInt(x.Y); ok {
+							o = fmt.Sprintf("%d", k)
+						} else if k, ok := constInt(x.X); ok {
+							o = fmt.Sprintf("%d", k)
+						}
+						atoms = append(atoms, "offset-compared-with:"+o)
+					}
+				case token.LSS, token.LEQ, token.GTR, token.GEQ:
+					if is8(x.X) || is8(x.Y) {
+						atoms = append(atoms, "offset-ordered:"+x.Op.String())
+					}
+				}
+			case *ssa.Call:
+				if sf := staticFn(&x.Call); sf != nil && c.P.IsRepoFn(sf) && load.FnPkgPath(sf) == load.FnPkgPath(fn) {
+					walk(sf, d+1)
+				}
+			}
+		})
+	}
+	walk(fn, 0)
+	// how many loops search with a pattern (a second search loop is a different algorithm)
+	nLoops := 0
+	for f := range seen {
+		for _, l := range naturalLoops(f) {
+			has := false
+			for b := range l.body {
+				for _, in := range b.Instrs {
+					if _, _, _, _, ok := regexpCall(in); ok {
+						has = true
+					}
+				}
+			}
+			if has {
+				nLoops++
+				// what else the search loop does to a line before it is matched (a filter on one side only)
+				for b := range l.body {
+					for _, in := range b.Instrs {
+						if cc := callCommon(in); cc != nil {
+							if f := staticCallee(cc); f != nil && (objPkgPath(f) == "strings" || objPkgPath(f) == "bytes") {
+								atoms = append(atoms, "line-test:"+qualName(f))
+							}
+						}
+					}
+				}
+			}
+		}
+	}
+	atoms = append(atoms, fmt.Sprintf("search-loops:%d", nLoops))
+	sort.Strings(atoms)
+	return atoms
+}
+
+func atomDiff(a, b []string) string {
+	// as sets: how often an ingredient occurs depends on the arrangement
+	inA, inB := map[string]bool{}, map[string]bool{}
+	for _, x := range a {
+		inA[x] = true
+	}
+	for _, x := range b {
+		inB[x] = true
+	}
+	var ks []string
+	for k := range inA {
+		if !inB[k] {
+			ks = append(ks, k+" (only when read back)")
+		}
+	}
+	for k := range inB {
+		if !inA[k] {
+			ks = append(ks, k+" (only when written)")
+		}
+	}
+	sort.Strings(ks)
+	return strings.Join(ks, ", ")
+}
+
+// searchExhausted: in fn (a locator or its helper), the loop over the lines that matches the patterns can
+// run out of lines. From that exit, every path must test the chain offset again, fail, or report failure
+// to its caller (a constant false result) before the line index is used.
+func (c *Ctx) searchExhausted(fn *ssa.Function) string {
+	if len(fn.Blocks) == 0 {
+		return ""
+	}
+	for _, l := range naturalLoops(fn) {
+		matches := false
+		for b := range l.body {
+			for _, in := range b.Instrs {
+				if _, _, _, _, ok := regexpCall(in); ok {
+					matches = true
+				}
+			}
+		}
+		if !matches {
+			continue
+		}
+		is8 := func(v ssa.Value) bool {
+			b, ok := v.Type().Underlying().(*types.Basic)
+			return ok && b.Kind() == types.Uint8
+		}
+		problem := ""
+		for _, sc := range l.header.Succs {
+			if l.body[sc] {
+				continue
+			}
+			env := newEnvAt(l.header)
+			env.enter(sc, l.header)
+			c.explore(sc, 0, env, exploreCB{
+				instr: func(in ssa.Instruction, e *pathEnv) bool {
+					if iff, ok := in.(*ssa.If); ok {
+						cond, _ := unwrapNot(iff.Cond)
+						if b, ok := cond.(*ssa.BinOp); ok && (is8(b.X) || is8(b.Y)) {
+							return true // the offset is looked at again
+						}
+					}
+					if _, m, recv, _, ok := regexpCall(in); ok && problem == "" {
+						if p, _ := c.Rx().Resolve(recv); p != nil && p.Name == "regex.RuleRxRegex" {
+							_ = m
+							problem = fmt.Sprintf("when the search in %s runs out of lines the line index is used all the same (%s): a chain offset beyond the rule's chained rules selects whatever line the search stopped at", load.FnName(fn), c.P.InstrPos(in))
+							return true
+						}
+					}
+					return false
+				},
+				ret: func(r *ssa.Return, e *pathEnv) {
+					for _, res := range r.Results {
+						rv := e.resolve(res)
+						if bv, ok := constBool(rv); ok && !bv {
+							return // reports "not found"
+						}
+						if b, ok := rv.(*ssa.BinOp); ok && (is8(b.X) || is8(b.Y)) {
+							return // reports the outcome of the offset comparison
+						}
+					}
+					if op := retErrOperand(r); op != nil && e.nilnessOf(op) == nonNil {
+						return
+					}
+					if problem == "" && len(r.Results) > 0 {
+						problem = fmt.Sprintf("when the search in %s runs out of lines it returns at %s as if the line had been found", load.FnName(fn), c.P.InstrPos(r))
+					}
+				},
+			})
+		}
+		if problem != "" {
+			return problem
+		}
+	}
+	return ""
 }
 
 // RuleCompareVerdict (C12): the verdict of compare is the equality of the
